@@ -166,12 +166,17 @@ fn judge_arith(n: usize, levels: &[f64], l: &mut Local) {
 }
 
 /// Unpaired on two probe samples: real-valued effective dof
-fn judge_unpaired(na: usize, nb: usize, scale_b_log2: i32, levels: &[f64], l: &mut Local) {
-    let sb = 2f64.powi(scale_b_log2);
-    let a = probe_state(na, 1.0);
+/// (`unit_log2`: the unit of measurement, a power of two applied to both samples: critical values have none)
+fn judge_unpaired(na: usize, nb: usize, unit_log2: i32, scale_b_log2: i32, levels: &[f64], l: &mut Local) {
+    let sa = 2f64.powi(unit_log2);
+    let sb = 2f64.powi(unit_log2 + scale_b_log2);
+    let a = probe_state(na, sa);
     let b = probe_state(nb, sb);
     let u = Unpaired::new(a, b);
-    let va = (if na % 2 == 0 { na as f64 / (na as f64 - 1.0) } else { 1.0 }) / na as f64;
+    if unit_log2 != 0 {
+        l.count("unpaired: unit of measurement 2^e, e != 0");
+    }
+    let va = sa * sa * (if na % 2 == 0 { na as f64 / (na as f64 - 1.0) } else { 1.0 }) / na as f64;
     let vb = sb * sb * (if nb % 2 == 0 { nb as f64 / (nb as f64 - 1.0) } else { 1.0 }) / nb as f64;
     let se = (va + vb).sqrt();
     let nu = (va + vb) * (va + vb) / (va * va / (na as f64 + 1.0) + vb * vb / (nb as f64 + 1.0)) - 2.0;
@@ -179,7 +184,7 @@ fn judge_unpaired(na: usize, nb: usize, scale_b_log2: i32, levels: &[f64], l: &m
         return;
     }
     let pv = |n: usize| if n % 2 == 0 { n as f64 / (n as f64 - 1.0) } else { 1.0 };
-    if !probe_ok(u.stats_a(), na, pv(na)) || !probe_ok(u.stats_b(), nb, sb * sb * pv(nb)) {
+    if !probe_ok(u.stats_a(), na, sa * sa * pv(na)) || !probe_ok(u.stats_b(), nb, sb * sb * pv(nb)) {
         l.count("probe statistics unexpected (not judged here)");
         return;
     }
@@ -188,7 +193,7 @@ fn judge_unpaired(na: usize, nb: usize, scale_b_log2: i32, levels: &[f64], l: &m
     }
     for kind in KINDS {
         for &level in levels.iter() {
-            let case = || json!({"what": "unpaired", "na": na, "nb": nb, "scale_b_log2": scale_b_log2, "kind": kind, "level": level});
+            let case = || json!({"what": "unpaired", "na": na, "nb": nb, "unit_log2": unit_log2, "scale_b_log2": scale_b_log2, "kind": kind, "level": level});
             let o = match call(|| u.ci_mean(conf(kind, level))).map(|i| Obs::of64(&i)) {
                 Out::Ok(o) => o,
                 other => {
@@ -266,7 +271,7 @@ pub fn run(run: &Arc<Run>) {
         }
     }
     run.set_rule(
-        "dof: quick: every integer nu = n-1 in 1..300, a geometric ladder to 2*10^5 and 3000 seeded large dof; thorough: EVERY integer nu in 1..110 003 plus the ladder beyond; both including 89 998..90 002, 99 998..100 003 and 109 998..110 003; real-valued dof through Unpaired on two symmetric probe samples of sizes (na, nb) and power-of-two scale ratios; \
+        "dof: quick: every integer nu = n-1 in 1..300, a geometric ladder to 2*10^5 and 3000 seeded large dof; thorough: EVERY integer nu in 1..110 003 plus the ladder beyond; both including 89 998..90 002, 99 998..100 003 and 109 998..110 003; real-valued dof through Unpaired on two symmetric probe samples of sizes (na, nb) and power-of-two scale ratios, in units 2^e for e in {0, -14, 25, -30, -52, ±200}; \
          level grid (incl. levels below 1/2) x 3 kinds. The critical value is recovered from the interval of an exactly-symmetric probe sample (mean exactly 0, exact sums), then |T_nu(c) - target| <= tol_P(nu) (normal branch: |Phi(c) - target| <= 1e-12); \
          proportion: z recovered from each Wilson root. The continued-fraction t CDF is cross-checked by quadrature on a sample of events. distinct = distinct (entry, nu, kind, level).",
     );
@@ -276,7 +281,7 @@ pub fn run(run: &Arc<Run>) {
         let level = case["level"].as_f64().unwrap_or(0.9);
         match case["what"].as_str().unwrap_or("") {
             "arith" => judge_arith(case["n"].as_u64().unwrap() as usize, &[level], &mut l),
-            "unpaired" => judge_unpaired(case["na"].as_u64().unwrap() as usize, case["nb"].as_u64().unwrap() as usize, case["scale_b_log2"].as_i64().unwrap() as i32, &[level], &mut l),
+            "unpaired" => judge_unpaired(case["na"].as_u64().unwrap() as usize, case["nb"].as_u64().unwrap() as usize, case["unit_log2"].as_i64().unwrap_or(0) as i32, case["scale_b_log2"].as_i64().unwrap() as i32, &[level], &mut l),
             "proportion" => judge_proportion(case["n"].as_u64().unwrap() as usize, case["k"].as_u64().unwrap() as usize, &[level], &mut l),
             "order" => crate::props::purity::order_independence("critical value", seed, case["i"].as_u64().unwrap(), &mut l),
             _ => {}
@@ -329,7 +334,7 @@ pub fn run(run: &Arc<Run>) {
     run.par(huge.len() as u64, |i, l| {
         let (na, nb, sl) = huge[i as usize];
         l.count("unpaired: combined size > 100 000 with a small effective dof");
-        judge_unpaired(na, nb, sl, &levels, l);
+        judge_unpaired(na, nb, [0, -30, 40][i as usize % 3], sl, &levels, l);
     });
     // real-valued dof
     let nun = run.cfg.by(600u64, 4000);
@@ -348,7 +353,9 @@ pub fn run(run: &Arc<Run>) {
         };
         let sl = r.range(-6, 6) as i32;
         let lv: Vec<f64> = if quick { (0..6).map(|_| *r.pick(&levels)).collect() } else { levels.clone() };
-        judge_unpaired(na, nb, sl, &lv, l);
+        // seconds vs nanoseconds vs astronomical units: the same samples in another unit (exact power of two)
+        let unit = [0, 0, -30, -14, 25, -200, 200, -52][(i / 12 % 8) as usize];
+        judge_unpaired(na, nb, unit, sl, &lv, l);
     });
     // proportion
     let np = run.cfg.by(400u64, 5000);
@@ -366,6 +373,7 @@ pub fn run(run: &Arc<Run>) {
         "Arithmetic:nu<9e4",
         "Arithmetic:nu in switch band",
         "Arithmetic:nu>=1.1e5 (normal)",
+        "unpaired: unit of measurement 2^e, e != 0",
         "Unpaired:nu<10",
         "Unpaired:nu<1e3",
         "real-valued (non-integer) dof",
